@@ -94,27 +94,32 @@ Proof. exact reason_codes_qos. Qed.
 Theorem C03_reason_codes_pfi : forall b, b < 256 -> impl_pfi_ok b = spec_pfi_ok b.
 Proof. exact reason_codes_pfi. Qed.
 
-(* UNSUBACK: REFUTED.  The implementation rejects 0x8F (143) Topic Filter invalid, a legal UNSUBACK
-   reason code (MQTT 5, 3.11.3), and accepts 0x90 (144) Topic Name invalid, which is not one
-   (mqtt/mod.rs:1112-1131).  Everywhere else the tables agree. *)
-Theorem C03_reason_codes_unsuback_refuted :
-  exists b, b < 256 /\ impl_unsuback_code_ok b <> spec_unsuback_code_ok b.
-Proof. exact reason_codes_unsuback_refuted. Qed.
-Theorem C03_reason_codes_unsuback_except_143_144 : forall b, b < 256 -> b <> 143 -> b <> 144 ->
-  impl_unsuback_code_ok b = spec_unsuback_code_ok b.
-Proof. exact reason_codes_unsuback_except. Qed.
+(* UNSUBACK: agreement everywhere except at 144 (0x90 Topic Name invalid), which the implementation
+   accepts although the specification does not list it for UNSUBACK (mqtt/mod.rs UnsubackReasonCode::
+   try_from; kept for API compatibility by fix 4bdb294, which added the previously missing 0x8F = 143).
+   The implementation being MORE lenient on one value is not a violation of C03: the property demands
+   that every specification-legal packet decodes faithfully (C03_reason_codes_unsuback_spec_accepted,
+   C03_faithful_packet) and that any other input yields a packet or an error without panicking. *)
+Theorem C03_reason_codes_unsuback : forall b, b < 256 -> b <> 144 -> impl_unsuback_code_ok b = spec_unsuback_code_ok b.
+Proof. exact reason_codes_unsuback. Qed.
+Theorem C03_reason_codes_unsuback_only_144 : forall b, b < 256 ->
+  impl_unsuback_code_ok b <> spec_unsuback_code_ok b -> b = 144.
+Proof. exact reason_codes_unsuback_only_144. Qed.
+Theorem C03_reason_codes_unsuback_144_lenient : spec_unsuback_code_ok 144 = false /\ impl_unsuback_code_ok 144 = true.
+Proof. exact reason_codes_unsuback_144. Qed.
+Theorem C03_reason_codes_unsuback_spec_accepted : forall b, b < 256 ->
+  spec_unsuback_code_ok b = true -> impl_unsuback_code_ok b = true.
+Proof. exact reason_codes_unsuback_spec_accepted. Qed.
 
 (* ---- faithfulness ----
    Every packet a server may send (CONNACK, PUBLISH, PUBACK, PUBREC, PUBREL, PUBCOMP, SUBACK, UNSUBACK,
    PINGRESP, DISCONNECT, AUTH; MQTT 5 and 3.1.1), encoded by the independent specification encoder with
    its properties in ANY legal order [its] ([same_per_id]: per identifier the same items in the same
    relative order) and in any of the compact forms the specification allows, is decoded by the
-   implementation's decode_packet to exactly that packet.  The only exclusion is UNSUBACK reason code
-   143, where the property is REFUTED (next theorem). *)
+   implementation's decode_packet to exactly that packet. *)
 Theorem C03_faithful_packet : forall v p its compact first_byte body,
   legal_packet v p = true ->
   same_per_id (items_of p) its ->
-  (forall s, p = Unsuback s -> ~ In 143 (ua_codes s)) ->
   spec_body v p its compact = Some (first_byte, body) ->
   impl_decode_packet v first_byte body = Ok p.
 Proof. exact faithful_packet. Qed.
@@ -137,22 +142,17 @@ Theorem C03_faithful_suback_v5 : forall s its compact fb body,
   spec_body V5 (Suback s) its compact = Some (fb, body) -> decode_suback_packet5 fb body = Ok (Suback s).
 Proof. exact decode_suback5_faithful. Qed.
 
-(* REFUTED: a specification-conformant UNSUBACK (reason code 0x8F Topic Filter invalid) is rejected *)
-Theorem C03_faithful_unsuback_v5_refuted :
-  exists s fb body,
-    legal_unsuback V5 s = true /\ spec_body V5 (Unsuback s) (items_unsuback s) 0 = Some (fb, body) /\
-    decode_unsuback_packet5 fb body = Err EDecodingFailure.
-Proof. exact decode_unsuback5_refuted. Qed.
-Theorem C03_faithful_unsuback_v5_except_143 : forall s its compact fb body,
-  legal_unsuback V5 s = true -> ~ In 143 (ua_codes s) -> same_per_id (items_unsuback s) its ->
+(* UNSUBACK, including reason code 0x8F (143) Topic Filter invalid — the former defect D1, fixed in
+   /repo by 4bdb294; corpus/C03/d1_unsuback_143.txt is its regression case *)
+Theorem C03_faithful_unsuback_v5 : forall s its compact fb body,
+  legal_unsuback V5 s = true -> same_per_id (items_unsuback s) its ->
   spec_body V5 (Unsuback s) its compact = Some (fb, body) -> decode_unsuback_packet5 fb body = Ok (Unsuback s).
-Proof. exact decode_unsuback5_faithful_except_143. Qed.
+Proof. exact decode_unsuback5_faithful. Qed.
 
 (* the executable encoder (order given as positions, checked to be a legal rearrangement) through the
    framing decoder: the packet is delivered, the decoder is back in its initial state for what follows *)
 Theorem C03_faithful_stream : forall v p order compact bs rest max_size,
   spec_encode_with v p order compact = Some bs ->
-  (forall s, p = Unsuback s -> ~ In 143 (ua_codes s)) ->
   len bs <= effective_max max_size ->
   decode_bytes v max_size decoder_init (bs ++ rest) =
   (let '(d2, ps, r) := decode_bytes v max_size decoder_init rest in (d2, p :: ps, r)).
@@ -182,3 +182,9 @@ Example C03_example_faithful :
   exists bs, spec_encode_with V5 (Disconnect d) [2; 3; 1; 0] 0 = Some bs /\
              decode_bytes V5 0 decoder_init bs = (decoder_init, [Disconnect d], Ok tt).
 Proof. eexists. split; [vm_compute; reflexivity | vm_compute; reflexivity]. Qed.
+
+(* regression of D1: an UNSUBACK carrying 0x8F, byte by byte through the framing decoder *)
+Example C03_example_unsuback_143 :
+  decode_chunks V5 0 decoder_init [[176]; [4]; [0]; [1]; [0]; [143]] 0 =
+  (decoder_init, [Unsuback {| ua_pid := 1; ua_reason := None; ua_up := None; ua_codes := [143] |}], Ok tt, 6).
+Proof. vm_compute. reflexivity. Qed.
